@@ -360,23 +360,47 @@ theorem decline_nidInv (c : Client) (m : Invite) (h : NidInv c.store) : NidInv (
             · rename_i s2 hs2
               exact saveGroup_nidInv _ _ _ h1 hs2
 
-theorem deliverCommit_nidInv (c : Client) (k : Commit) (h : NidInv c.store) : NidInv (deliverCommit c k).1.store := by
-  unfold deliverCommit
+theorem saveSecret_nidInv (s s' : Store) (gid epoch v : Nat) (hinv : NidInv s) (h : saveSecret s gid epoch v = some s') :
+    NidInv s' := by
+  unfold saveSecret at h
+  split at h; · cases h
+  cases h; exact nidInv_of_eq s _ rfl rfl rfl hinv
+
+theorem exporterSecret_nidInv (c : Client) (gid : Nat) (h : NidInv c.store) : NidInv (exporterSecret c gid).1.store := by
+  unfold exporterSecret
   split
+  · exact h
   · split
+    · exact h
     · exact h
     · split
       · exact h
-      · split
-        · simp only
-          split
-          · exact h
-          · rename_i s1 hs1; exact saveGroup_nidInv _ _ _ h hs1
-        · simp only
-          split
-          · exact h
-          · rename_i s1 hs1; exact saveGroup_nidInv _ _ _ h hs1
+      · rename_i s1 hs1; exact saveSecret_nidInv _ _ _ _ _ h hs1
+
+/-- `exporter_secret` touches the secret cache only -/
+theorem exporterSecret_frame (c : Client) (gid : Nat) :
+    (exporterSecret c gid).1.mls = c.mls ∧ (exporterSecret c gid).1.store.groups = c.store.groups ∧
+    (exporterSecret c gid).1.store.byNid = c.store.byNid ∧ (exporterSecret c gid).1.store.backend = c.store.backend := by
+  unfold exporterSecret
+  split
+  · exact ⟨rfl, rfl, rfl, rfl⟩
+  · split
+    · exact ⟨rfl, rfl, rfl, rfl⟩
+    · exact ⟨rfl, rfl, rfl, rfl⟩
+    · split
+      · exact ⟨rfl, rfl, rfl, rfl⟩
+      · rename_i s1 hs1
+        unfold saveSecret at hs1
+        split at hs1; · cases hs1
+        cases hs1; exact ⟨rfl, rfl, rfl, rfl⟩
+
+theorem routeEvent_nidInv (c : Client) (nid : Nat) (h : NidInv c.store) : NidInv (routeEvent c nid).1.store := by
+  unfold routeEvent
+  split
   · exact h
+  · split
+    · exact h
+    · exact exporterSecret_nidInv c _ h
 
 theorem storeProbe_nidInv (c : Client) (gid seq : Nat) (h : NidInv c.store) : NidInv (storeProbe c gid seq).store := by
   unfold storeProbe
@@ -390,5 +414,44 @@ theorem storeProbe_nidInv (c : Client) (gid seq : Nat) (h : NidInv c.store) : Ni
       split
       · exact h1
       · rename_i s2 hs2; exact saveGroup_nidInv _ _ _ h1 hs2
+
+theorem deliverCommit_nidInv (c : Client) (k : Commit) (h : NidInv c.store) : NidInv (deliverCommit c k).1.store := by
+  have hr := routeEvent_nidInv c k.nid h
+  unfold deliverCommit
+  split
+  · rename_i c1 heq; rw [heq] at hr; exact hr
+  · rename_i c1 g st sec heq
+    rw [heq] at hr
+    simp only at hr
+    split
+    · exact hr
+    · split
+      · exact hr
+      · split
+        · exact hr
+        · split
+          · simp only
+            split
+            · exact hr
+            · rename_i s1 hs1; exact saveGroup_nidInv _ _ _ hr hs1
+          · simp only
+            have h2 : NidInv (exporterSecret { c1 with mls := ainsert k.gid { tok := k.toTok, epoch := k.toEpoch, members := k.members } c1.mls } k.gid).1.store :=
+              exporterSecret_nidInv _ _ hr
+            split
+            · exact h2
+            · rename_i s1 hs1; exact saveGroup_nidInv _ _ _ h2 hs1
+
+theorem deliverApp_nidInv (c : Client) (gid nid tok seq : Nat) (h : NidInv c.store) :
+    NidInv (deliverApp c gid nid tok seq).1.store := by
+  have hr := routeEvent_nidInv c nid h
+  unfold deliverApp
+  split
+  · rename_i c1 heq; rw [heq] at hr; exact hr
+  · rename_i c1 g st sec heq
+    rw [heq] at hr
+    simp only at hr
+    split
+    · exact storeProbe_nidInv c1 gid seq hr
+    · exact hr
 
 end MdkVerif.Welcome
